@@ -2,7 +2,7 @@ reg("C06",
     name="C06_order", src="harness/C06_order.cpp",
     anchor_files=["src/hgraph/types/graph_wiring.cpp", "include/hgraph/types/graph_wiring.h", "include/hgraph/types/static_node.h",
                   "include/hgraph/lib/std/operators/control.h", "src/hgraph/runtime/node.cpp", "src/hgraph/runtime/graph.cpp"],
-    quick=dict(defs=dict(NX=2, DMAX=3, WMAX=5), symx=dict(shards=16, **{"max-wall": 900})),
+    quick=dict(defs=dict(NX=2, DMAX=3, WMAX=4), symx=dict(shards=16, **{"max-wall": 900})),
     thorough=dict(defs=dict(NX=3, DMAX=3, WMAX=7), symx=dict(shards=16, **{"max-wall": 3000, "shard-depth": 8})),
     reach=["end", "permuted_order", "identity_permutation", "two_output_ticks", "shared_subexpression", "feedback_delivered",
            "fan_in_sources_tick_together"],
